@@ -15,6 +15,20 @@ int g_prevch;                    /* the character before g_cur, -1 if none */
    well-formed sequence starts is the contract proved in job utf8_decode_next. */
 #define BYTE_K(s, i, n) (((i) < (n)) ? BYTE_AT((s) + (i)) : -1)
 
+#ifdef SAFETY_ONLY
+/* C06 variant: memory safety / termination / frame only, independent of the functional specification */
+int is_6531_local(const char *start, const char *end)
+__CPROVER_requires(RANGE_REQ(start, end, (size_t)0x7ffffff0))
+__CPROVER_assigns()
+__CPROVER_ensures(__CPROVER_return_value <= 0 && __CPROVER_return_value > -EEAV_MAX)
+;
+#define EAV_VERIF_LOOP_is_6531_local \
+    __CPROVER_assigns(ch, prev, quote, qpair, u.the_index, u.the_byte, u.the_char) \
+    __CPROVER_loop_invariant(u.the_input == start && u.the_length == (int)g_len && u.the_index >= 0 && u.the_index <= u.the_length \
+        && u.the_char >= 0 && u.the_char <= u.the_index && u.the_byte >= 0 && u.the_byte <= u.the_index \
+        && (quote==0||quote==1) && (qpair==0||qpair==1) && (u.the_index == 0) == (prev == -1) && prev >= -1 && prev < u.the_index) \
+    __CPROVER_decreases(u.the_length - u.the_index)
+#else
 int is_6531_local(const char *start, const char *end)
 __CPROVER_requires(RANGE_REQ(start, end, (size_t)0x7ffffff0))
 __CPROVER_requires(g_state == L_START && g_pos == 0 && g_cur == -1 && g_prevch == -1)
@@ -57,13 +71,19 @@ __CPROVER_ensures(__CPROVER_return_value == -EEAV_LPART_UNQUOTED ==> (g_pos == g
     __CPROVER_assert(ch == U_CP(g_b0, g_b1, g_b2, g_b3), "GHOST: decoded character is the sequence's code point"); \
     g_prevch = g_cur; g_cur = ch; g_state = SPEC6531_STEP(g_state, g_cur); g_pos = (size_t)u.the_index;
 
+#endif
+
 #include <src/is_6531_local.c>
 
 void harness(void)
 {
     const char *s, *e;
     int r = is_6531_local(s, e);
+#ifndef SAFETY_ONLY
     __CPROVER_assert(!(r == 0 && g_len >= 6 && g_cur > 0xFFFF), "REACH: accepting exit after a 4-byte character");
     __CPROVER_assert(!(r == -EEAV_LPART_INVALID_UTF8), "REACH: invalid UTF-8");
     __CPROVER_assert(!(r == -EEAV_LPART_UNQUOTED), "REACH: open quote");
+#else
+    __CPROVER_assert(r > 0, "REACH: returns");
+#endif
 }
